@@ -130,7 +130,8 @@ def checkFSet (op : String) (args res : List String) : Verdict :=
   | "ispointint", _, [r] => one fun a => expectEq s!"ispointint/{FSet.isPointInt a}" "fset-ispointint" r (if FSet.isPointInt a then "1" else "0")
   | "containsint", _, [r] => one fun a => expectEq s!"containsint/{FSet.containsInt a}" "fset-containsint" r (if FSet.containsInt a then "1" else "0")
   | "countint", _, [r] => one fun a =>
-      expectEq "countint" "fset-countint" r (match FSet.countInt a with | some c => toString c | none => "max")
+      -- LONG_MAX is both the saturation value and a possible exact count
+      expectEq "countint" "fset-countint" r (match FSet.countInt a with | some c => if c ≥ 2 ^ 63 - 1 then "max" else toString c | none => "max")
   | "contains", [a, v], [r] =>
     (match pFSet? a, pEP? v with
      | some a, some v =>
